@@ -123,3 +123,23 @@ func SumOf(v [4]uint32, total uint64, buf []byte) uint32 {
 
 // Sum is XXH32.tla: StSum.
 func (st *Stream) Sum() uint32 { return SumOf(st.V, st.Total, st.Buf) }
+
+// ZeroLaneInput returns prefix ++ one 16-byte stripe such that lane `lane` of the accumulators is 0 after the
+// stripe: round(acc, w) = rotl(acc + w*P2, 13) * P1 is 0 exactly when w = -acc * P2^-1 (mod 2^32).  Inputs like
+// this one separate "the state word is zero" from "nothing was written yet".  prefix must be a multiple of 16 long.
+func ZeroLaneInput(prefix []byte, lane int, fill byte) []byte {
+	v := initLanes()
+	for i := 0; i+16 <= len(prefix); i += 16 {
+		v = stripe(v, prefix, i)
+	}
+	// inverse of the odd constant P2 modulo 2^32 (Newton iteration)
+	inv := uint32(p2)
+	for k := 0; k < 5; k++ {
+		inv *= 2 - uint32(p2)*inv
+	}
+	w := (0 - v[lane]) * inv
+	out := append([]byte(nil), prefix...)
+	st := []byte{fill, fill, fill, fill, fill, fill, fill, fill, fill, fill, fill, fill, fill, fill, fill, fill}
+	st[4*lane], st[4*lane+1], st[4*lane+2], st[4*lane+3] = byte(w), byte(w>>8), byte(w>>16), byte(w>>24)
+	return append(out, st...)
+}
